@@ -210,6 +210,16 @@ class ContractMixin:
             sv.facts(st, self)
             f = {"str_init": init_seg, "str_last": last_seg, "str_first": first_seg}[name]
             return mk_str(f(args[0].t, args[1].t))
+        if name == "alph":
+            from .strings import alph_of
+            return Val(TSet(Str), [alph_of(args[0].t)])
+        if name == "charset":
+            from .strings import charset_of
+            return Val(TSet(Str), [charset_of(z3.simplify(args[0].t).as_string())])
+        if name == "alnum_chars":
+            c = z3.Const(fresh_name("ch"), z3.StringSort())
+            rng = z3.Union(z3.Range("a", "z"), z3.Range("A", "Z"), z3.Range("0", "9"))
+            return Val(TSet(Str), [z3.Lambda([c], z3.InRe(c, rng))])
         if name == "lower":
             return mk_str(z3.Function("str_lower", z3.StringSort(), z3.StringSort())(args[0].t))
         if name == "module":
